@@ -82,6 +82,12 @@ def check(case):
                 return None
             for k in case["adds"]:
                 obj.add(k)
+            if case.get("twist") and kind == "qf":
+                # filled to the point where the next insertion would resize it: a look-up is not an insertion
+                i = 0
+                while obj.load_factor < 0.85 and i < 200:
+                    obj.add("fill-%d-%d" % (case["seed"] % 97, i))
+                    i += 1
             if case.get("twist"):
                 if kind in ("bloom", "cbf"):
                     got = sparse_result(make, tag=str(case["seed"] % 7))
